@@ -35,9 +35,10 @@ ASSUMPTIONS = [
     "TrafficSign.first_occurrence and IntersectionIncomingElement.left_of are not among the reference kinds the "
     "statement lists: any value between 'unchanged' and 'cleaned' is accepted",
     "stop-line references None and empty set are not distinguished",
-    "cut-outs: presence is demanded of lanelets, signs and lights only; an intersection or incoming element may be "
-    "dropped or kept, whatever is kept must equal 'original intersected with kept'; after removals an incoming "
-    "element may only disappear when all its incoming lanelets were removed",
+    "cut-outs: presence is demanded of lanelets, signs, lights and of incoming elements (with their intersection) "
+    "that have a successor and none of whose lanelets was cut away; any other intersection or incoming element may be "
+    "dropped or kept (the statement does not say which), whatever is kept must equal 'original intersected with "
+    "kept'; after removals an incoming element may only disappear when all its incoming lanelets were removed",
     "create_from_lanelet_list receives lanelets only, so its result has no signs, lights or intersections and every "
     "sign/light reference of the copied lanelets must be gone",
     "with referenced_elements=True a sign/light must disappear iff it was referenced by a removed lanelet and by no "
@@ -176,8 +177,12 @@ def _setdiff(tag, what, owner, exp, got, detail):
                                                                                       detail()))
 
 
-def compare(m, o, tag, detail, lenient_intersections):
-    """Model m (expected) against observation o. Prunes optional intersection parts of m to what was observed."""
+def compare(m, o, tag, detail, required=None):
+    """Model m (expected) against observation o. Prunes optional intersection parts of m to what was observed.
+    required=None: removal semantics (every intersection stays; an incoming element may only vanish when it has no
+    incoming lanelet left). required=set of (intersection id, incoming id): cut-out semantics (only these incoming
+    elements, and hence their intersections, must be present)."""
+    lenient_intersections = required is not None
     for key, name in (("L", "lanelet"), ("S", "sign"), ("T", "light")):
         miss, extra = sorted(set(m[key]) - set(o[key])), sorted(set(o[key]) - set(m[key]))
         if miss:
@@ -228,7 +233,12 @@ def compare(m, o, tag, detail, lenient_intersections):
     if extra:
         raise Violation("%s/intersection-not-removed" % tag, "intersections %r should be gone; %s" % (extra, detail()))
     miss = sorted(set(m["I"]) - set(o["I"]))
-    if miss and not lenient_intersections:
+    if lenient_intersections:
+        hard = sorted(x for x in miss if any(q[0] == x for q in required))
+        if hard:
+            raise Violation("%s/intersection-missing" % tag, "intersections %r have incoming elements none of whose "
+                            "lanelets were cut away, but are gone; %s" % (hard, detail()))
+    elif miss:
         raise Violation("%s/intersection-missing" % tag, "intersections %r were not selected for removal but are "
                         "gone; %s" % (miss, detail()))
     for xid in miss:
@@ -240,9 +250,10 @@ def compare(m, o, tag, detail, lenient_intersections):
             raise Violation("%s/incoming-invented" % tag, "intersection %d has incoming elements %r; %s" % (
                 xid, extra, detail()))
         for iid in sorted(set(e["inc"]) - set(g["inc"])):
-            if not lenient_intersections and e["inc"][iid]["lanelets"]:
+            if (e["inc"][iid]["lanelets"] if not lenient_intersections else (xid, iid) in required):
                 raise Violation("%s/incoming-missing" % tag, "incoming %d of intersection %d (incoming lanelets %r "
-                                "remain) is gone; %s" % (iid, xid, e["inc"][iid]["lanelets"], detail()))
+                                "remain, required=%s) is gone; %s" % (iid, xid, e["inc"][iid]["lanelets"],
+                                                                     lenient_intersections, detail()))
             del e["inc"][iid]
         for iid in sorted(e["inc"]):
             who = "incoming %d of intersection %d" % (iid, xid)
@@ -349,15 +360,13 @@ def run_history(r, ctx, scenario_mode):
 
     obs = observe(net)
     check_no_dangling(obs, "build", detail)
-    compare(model, obs, "build", detail, False)
+    compare(model, obs, "build", detail)
     nt = False
     ctx.label("lanelets-%d" % len(net_r["lanelets"]))
     for k, op in enumerate(r["ops"]):
         step[0], step[1] = k, op
         name = op["op"]
         tag = name
-        lenient = False
-        target, target_model = net, model
         if name in ("s_rm_lanelet", "n_rm_lanelet"):
             if not model["L"]:
                 ctx.label("skip-no-lanelet")
@@ -369,6 +378,8 @@ def run_history(r, ctx, scenario_mode):
                 rem = _pick(model["L"], op["sel"] if name == "s_rm_lanelet" else [op["sel"]])
                 if name == "s_rm_lanelet" and not op["list"]:
                     rem = rem[:1]
+                if not rem:
+                    ctx.label("empty-list-form")
                 if nontrivial_lanelet_removal(model, rem):
                     nt = True
                     ctx.label("nontrivial-lanelet-removal")
@@ -376,7 +387,7 @@ def run_history(r, ctx, scenario_mode):
                     tag = "s_rm_lanelet[%s,%s]" % ("list" if op["list"] else "single", "ref" if op["ref"] else "noref")
                     objs = [net.find_lanelet_by_id(i) for i in rem]
                     sc.remove_lanelet(objs if op["list"] else objs[0], referenced_elements=op["ref"])
-                    if op["ref"]:
+                    if op["ref"] and rem:
                         hs, hl = m_hanging(model, rem, "signs"), m_hanging(model, rem, "lights")
                         shared = (set().union(*[set(model["L"][i]["signs"]) | set(model["L"][i]["lights"])
                                                 for i in rem])) - hs - hl
@@ -401,6 +412,8 @@ def run_history(r, ctx, scenario_mode):
                 rem = _pick(model[key], op["sel"] if name.startswith("s_") else [op["sel"]])
                 if name.startswith("s_") and not op["list"]:
                     rem = rem[:1]
+                if not rem:
+                    ctx.label("empty-list-form")
                 ref, slref = ("signs", "sign_ref") if key == "S" else ("lights", "light_ref")
                 if any(set(rem) & set(la[ref]) for la in model["L"].values()):
                     nt = True
@@ -427,6 +440,8 @@ def run_history(r, ctx, scenario_mode):
                 if name == "s_rm_inter":
                     if not op["list"]:
                         rem = rem[:1]
+                    if not rem:
+                        ctx.label("empty-list-form")
                     tag = "s_rm_inter[%s]" % ("list" if op["list"] else "single")
                     objs = [net.find_intersection_by_id(i) for i in rem]
                     sc.remove_intersection(objs if op["list"] else objs[0])
@@ -484,6 +499,16 @@ def run_history(r, ctx, scenario_mode):
                 nt = True
                 ctx.label("nontrivial-cut")
             ctx.label("%s-kept-%s" % (name, "none" if not got else "all" if not rem else "some"))
+            # incoming elements none of whose lanelets are cut away (and that have a successor) must survive a cut-out
+            required = set()
+            if name == "cut":
+                for xid, x in model["I"].items():
+                    for iid, inc in x["inc"].items():
+                        succ = set(inc["right"]) | set(inc["straight"]) | set(inc["left"])
+                        if succ and inc["lanelets"] and (succ | set(inc["lanelets"])) <= got:
+                            required.add((xid, iid))
+                if required:
+                    ctx.label("cut-with-untouched-incoming")
             nm = copy.deepcopy(model)
             m_remove_lanelets(nm, rem)
             if name == "cut":
@@ -496,10 +521,9 @@ def run_history(r, ctx, scenario_mode):
                 m_remove_signs(nm, set(nm["S"]), "S")
                 m_remove_signs(nm, set(nm["T"]), "T")
                 nm["I"] = {}
-            target, target_model, lenient = new, nm, True
             ctx.label("op-" + tag)
             check_no_dangling(nobs, tag, detail)
-            compare(nm, nobs, tag, detail, True)
+            compare(nm, nobs, tag, detail, required)
             if op.get("adopt") and not scenario_mode:
                 net, model, obs = new, nm, nobs
                 ctx.label("adopted-result")
@@ -508,7 +532,7 @@ def run_history(r, ctx, scenario_mode):
             raise ValueError(name)
         obs = observe(net)
         check_no_dangling(obs, tag, detail)
-        compare(model, obs, tag, detail, False)
+        compare(model, obs, tag, detail)
     if nt:
         ctx.nontrivial()
 
@@ -525,13 +549,29 @@ def check_network(r, ctx):
 SEL = st.lists(st.integers(0, 7), min_size=1, max_size=3)
 
 
+def _form(d):
+    """List forms may be empty (removing nothing); the single form needs one element."""
+    out = {k: v for k, v in d.items() if k != "empty"}
+    if d["list"] and d["empty"]:
+        out["sel"] = []
+    return out
+
+
+EMPTY = st.sampled_from([False] * 11 + [True])
+
+
 def scenario_ops():
     return [
-        st.fixed_dictionaries({"op": st.just("s_rm_lanelet"), "sel": SEL, "list": st.booleans(), "ref": st.booleans()}),
-        st.fixed_dictionaries({"op": st.just("s_rm_lanelet"), "sel": SEL, "list": st.booleans(), "ref": st.just(True)}),
-        st.fixed_dictionaries({"op": st.just("s_rm_sign"), "sel": SEL, "list": st.booleans()}),
-        st.fixed_dictionaries({"op": st.just("s_rm_light"), "sel": SEL, "list": st.booleans()}),
-        st.fixed_dictionaries({"op": st.just("s_rm_inter"), "sel": SEL, "list": st.booleans()}),
+        st.fixed_dictionaries({"op": st.just("s_rm_lanelet"), "sel": SEL, "list": st.booleans(), "ref": st.booleans(),
+                               "empty": EMPTY}).map(_form),
+        st.fixed_dictionaries({"op": st.just("s_rm_lanelet"), "sel": SEL, "list": st.booleans(), "ref": st.just(True),
+                               "empty": EMPTY}).map(_form),
+        st.fixed_dictionaries({"op": st.just("s_rm_sign"), "sel": SEL, "list": st.booleans(),
+                               "empty": EMPTY}).map(_form),
+        st.fixed_dictionaries({"op": st.just("s_rm_light"), "sel": SEL, "list": st.booleans(),
+                               "empty": EMPTY}).map(_form),
+        st.fixed_dictionaries({"op": st.just("s_rm_inter"), "sel": SEL, "list": st.booleans(),
+                               "empty": EMPTY}).map(_form),
     ]
 
 
@@ -589,17 +629,22 @@ NT = ("; non-trivial = some step removes lanelets that a remaining lanelet/inter
       "removed and kept lanelets")
 FACETS = [
     Facet("scenario-removals", check_scenario, strategy=lambda tier: history("scenario"), quick=600, thorough=24000,
+          max_shrink_s=20,
           rule="1-6 Scenario.remove_lanelet(+-referenced elements) / remove_traffic_sign / remove_traffic_light / "
                "remove_intersection steps (single and list forms) on generated networks added to a Scenario" + NT),
     Facet("network-removals", check_network, strategy=lambda tier: history("network"), quick=500, thorough=20000,
+          max_shrink_s=20,
           rule="1-6 LaneletNetwork.remove_lanelet / remove_traffic_sign / remove_traffic_light / remove_intersection "
                "steps (present and absent ids)" + NT),
     Facet("cutouts", check_network, strategy=lambda tier: history("cut", 1, 4), quick=600, thorough=24000,
+          max_shrink_s=20,
           rule="1-4 steps of create_from_lanelet_network(shape | excluded types | both) interleaved with network-level "
                "removals; results adopted as the current network or discarded; original compared before/after" + NT),
     Facet("lanelet-list", check_network, strategy=lambda tier: history("list", 1, 4), quick=300, thorough=12000,
+          max_shrink_s=20,
           rule="1-4 steps of create_from_lanelet_list(subset) interleaved with network-level removals" + NT),
     Facet("mixed", check_scenario, strategy=lambda tier: history("mixed"), quick=400, thorough=16000,
+          max_shrink_s=20,
           rule="1-6 steps mixing scenario-level removals, network-level removals on scenario.lanelet_network and "
                "cut-outs of the scenario's network" + NT),
 ]
